@@ -39,6 +39,13 @@ pub fn run(args: &[String]) {
             let _ = fh::parameters(512);
         }
         Some("c02time") => super::c02::diag_time(),
+        Some("rejscan") => {
+            let n: usize = args[1].parse().unwrap();
+            let count: u64 = args[2].parse().unwrap();
+            let t0 = std::time::Instant::now();
+            let r = crate::util::seeds_with_most_rejections(n, 0, count, 6);
+            println!("{:?} in {:?}", r, t0.elapsed());
+        }
         Some("slotscan") => {
             let n: usize = args[1].parse().unwrap();
             let count: u64 = args[2].parse().unwrap();
